@@ -261,4 +261,9 @@ MUTANTS = [
     ("c20-rc-byte-table-padding-slip", "C20", "patches/r6-C20.diff", "fire", "C20-K6"),
     ("c20-rc-byte-table-correct", "C20", "patches/r6-C20-twin.diff", "quiet", ""),
     ("c18-rc-byte-table-correct", "C18", "patches/r6-C20-twin.diff", "quiet", ""),
+    # ---------------------------------------------------------------- round 7
+    ("c09-append-int-two-digits-gt", "C09", "patches/r7-C09.diff", "fire", "C09-ALPHA"),
+    ("c09-append-int-two-digits-ge", "C09", "patches/r7-C09-twin.diff", "quiet", ""),
+    ("c01-append-int-two-digits-ge", "C01", "patches/r7-C09-twin.diff", "quiet", ""),
+    ("c03-cursor-from-batch-number", "C03", "patches/r7-C03.diff", "fire", "C03-BATCH"),
 ]
